@@ -39,3 +39,32 @@ package main
 //@     invariant len(newHeader) == $i && 0 <= $i && $i <= len(header) && cap(newHeader) == len(header)
 //@     invariant arr(newHeader) != nil && !(arr(newHeader) in old($alloc)) && allocated(arr(newHeader))
 //@     invariant forall i idx(newHeader) :: newHeader[i] == mapstr(fnref("normalizeHeader$1"), lower(header[i]))
+
+// createCmd (C19, C16): the output is only ever created, never overwritten or removed; every lock taken is released on
+// every path; the CSV reader is used in its default configuration; both writers are driven through their contracts
+// (the dynamic type of iw is decided per path by the verifier: indexWriter has no contract of its own).
+//@ pred IWLive(iw indexWriter, out string) := iw != nil && iref(iw) != nil
+//@   && (typeof(iw) == ptrtag(updog.IndexWriter) || typeof(iw) == ptrtag(updog.BigIndexWriter))
+//@   && (typeof(iw) == ptrtag(updog.IndexWriter) ==> WriterInv(iw.(*updog.IndexWriter)) && WriterSem(iw.(*updog.IndexWriter))
+//@         && iw.(*updog.IndexWriter).mtx.held == 0 && iw.(*updog.IndexWriter).filename == out)
+//@   && (typeof(iw) == ptrtag(updog.BigIndexWriter) ==> BigWInv(iw.(*updog.BigIndexWriter)) && iw.(*updog.BigIndexWriter).mtx.held == 0
+//@         && DBOpen(iw.(*updog.BigIndexWriter).db) && !iw.(*updog.BigIndexWriter).db.wopen && !sin(iw.(*updog.BigIndexWriter).db.committed, kS())
+//@         && iw.(*updog.BigIndexWriter).db.path == out)
+
+//@ func [C19,C16] createCmd(globalCfg, cfg) (err)
+//@   requires globalCfg != nil && cfg != nil
+//@   requires nothing_locked_by_this_process: forall q string :: !flocked(fs, q)
+//@   assumes output_is_not_the_name_of_the_temporary_file: !isTempName(cfg.outputFile)
+//@   modifies *
+//@   ensures [C16,C19] existing_output_is_an_error_and_stays_untouched: fexists(old(fs), cfg.outputFile) ==>
+//@        err != nil && fexists(fs, cfg.outputFile) && fcontent(fs, cfg.outputFile) == fcontent(old(fs), cfg.outputFile)
+//@   ensures [C19] every_lock_is_released: forall q string :: !flocked(fs, q)
+//@   loop 1
+//@     invariant cfg != nil && globalCfg != nil && r != nil && cfg.outputFile == old(cfg.outputFile) && cfg.big == old(cfg.big)
+//@     invariant r.Comma == 44 && r.Comment == 0 && r.FieldsPerRecord == 0 && !r.LazyQuotes && !r.TrimLeadingSpace && r.nfields == len(header)
+//@     invariant IWLive(iw, cfg.outputFile)
+//@     invariant fexists(old(fs), cfg.outputFile) ==> !cfg.big && fexists(fs, cfg.outputFile) && fcontent(fs, cfg.outputFile) == fcontent(old(fs), cfg.outputFile)
+//@     invariant !cfg.big ==> typeof(iw) == ptrtag(updog.IndexWriter) && (forall q string :: !flocked(fs, q))
+//@     invariant cfg.big ==> typeof(iw) == ptrtag(updog.BigIndexWriter)
+//@   loop 2
+//@     invariant 0 <= $i && len(record) == len(header)
